@@ -316,9 +316,7 @@ theorem InvN.step {s s' : State} (A : InvN s) (h : StepN s s') : InvN s' := by
       rw [List.length_erase_of_mem hmem, n1]
     all_goals grind [upd, NPc.joining]
   all_goals (refine ⟨?_, ?_, ?_, ?_, ?_, ?_, ?_, ?_, ?_, ?_, ?_, ?_, ?_, ?_, ?_, ?_, ?_, ?_, ?_⟩)
-  all_goals (first
-    | (grind [upd, NPc.joining])
-    | (trace_state; sorry))
+  all_goals (grind [upd, NPc.joining])
 
 theorem InvN.reachable {s : State} (h : ReachN s) : InvN s := by
   refine Reachable.invariant InvN ?_ ?_ s h
